@@ -53,6 +53,8 @@ def strategy(tier):
         "no_user": st.sampled_from([False, False, False, True]),
         # CMINXDIR spelled with a leading tilde (as it arrives from a unit file or a quoted assignment)
         "tilde": st.sampled_from([False, False, True]),
+        # the input is a directory, and absolute output directories lie inside it
+        "dir_input": st.sampled_from([False, False, True]),
     })
 
 
@@ -82,6 +84,8 @@ def value_for(section, key, typ, src, flip, sb, absolute):
         return {"s": ["pat_s1", "*.s2", "pat_c2", "./pat_u1"], "u": ["pat_u1", "pat_c1/", "gen*", "\\#hash_first.cmake", "a\\*b"], "c": ["pat_c1", "pat_c2/", "gen*/", "a//b"]}[src]
     if typ == "path-cli":
         rel = f"outdir_{src}/x"
+        if absolute and getattr(sb, "dir_input", False):
+            return sb.path("dirinput", "absout_" + src)       # an output directory inside the directory that is documented
         return sb.path("absout_" + src) if absolute else rel
     raise HarnessError(typ)
 
@@ -91,6 +95,7 @@ def evaluate(case):
     res = Result()
     dflt = defaults()
     with S.Sandbox("c16") as sb:
+        sb.dir_input = bool(case.get("dir_input"))
         cwd = sb.path(case["cwd"])
         os.makedirs(cwd, exist_ok=True)
         sdir = sb.path(case["sfile_dir"])
@@ -171,7 +176,14 @@ def evaluate(case):
             with open(os.path.join(where, "config.yaml"), "w", encoding="utf-8") as f:
                 yaml.safe_dump(decoy, f)
         use_sfile = bool(sfile_data)
-        full_argv = [sb.path("else", "input.cmake")] + (["-s", sfile] if use_sfile else []) + argv
+        inp_arg = sb.path("else", "input.cmake")
+        if case.get("dir_input"):
+            inp_arg = sb.path("dirinput")
+            os.makedirs(inp_arg, exist_ok=True)
+            with open(os.path.join(inp_arg, "m.cmake"), "w") as f:
+                f.write("function(dir_fn a)\nendfunction()\n")
+            res.labels.append("directory-input-containing-the-output")
+        full_argv = [inp_arg] + (["-s", sfile] if use_sfile else []) + argv
         recorded = []
         orig = cminx.document
 
@@ -237,7 +249,7 @@ def evaluate(case):
                 res.fail(f"option:{section}.{key}:{which}", f"expected {w!r} (from {which}) got {a!r}")
         # end to end for a deterministic sample: the page lands in the predicted directory
         exp_dir = expected[("output", "directory")]
-        if exp_dir[1] is not None and int(digest(case)[:2], 16) % 6 == 0 and not res.failures:
+        if exp_dir[1] is not None and int(digest(case)[:2], 16) % 6 == 0 and not res.failures and not case.get("dir_input"):
             res.labels.append("end-to-end")
             want, top = exp_dir[1], exp_dir[2]
             if os.path.isabs(want):
